@@ -252,7 +252,7 @@ func (h *harness) tornChooser() simfs.TornChooser {
 		default:
 			keep = h.src.Intn(unsynced + 1)
 		}
-		garble := keep > 0 && h.src.Chance(1, 3)
+		garble := false && h.src.Chance(1, 3) // garbage sectors are outside the fault model of the properties (unsynced data is lost, never invented)
 		h.ctx.Tracef("torn tail %s: %d of %d unsynced bytes survive, garbled=%t", path, keep, unsynced, garble)
 		if keep > 0 {
 			h.ctx.Count("fault.torn_tail", 1)
